@@ -7,6 +7,7 @@ import (
 	"sort"
 	"strings"
 
+	"golang.org/x/tools/go/callgraph"
 	"golang.org/x/tools/go/ssa"
 
 	"verif/checker/core"
@@ -1406,7 +1407,17 @@ func (m *scopeModel) analyseHandle(create *ssa.Call, k scopeKind) *scpHandleInfo
 		}
 	}
 	// closures capturing a cell that holds the handle
+	var cellList []*ssa.Alloc
 	for al := range h.cells {
+		cellList = append(cellList, al)
+	}
+	sort.Slice(cellList, func(i, j int) bool {
+		if cellList[i].Pos() != cellList[j].Pos() {
+			return cellList[i].Pos() < cellList[j].Pos()
+		}
+		return cellList[i].Name() < cellList[j].Name()
+	})
+	for _, al := range cellList {
 		for _, r := range *al.Referrers() {
 			mc, ok := r.(*ssa.MakeClosure)
 			if !ok {
@@ -1641,6 +1652,36 @@ func ruleScp2(c *Ctx) {
 		}
 	}
 	c.negControls(start, "okScopeReleasePerBranch", "okScopeDeferredClosureRelease", "okScopeRecreatedInLoop", "okScopeFieldAfterRelease")
+}
+
+// scpCallers returns the call-graph edges into fn in a deterministic order
+// (caller name, then position of the call site). Callers without a call site,
+// synthetic wrappers and — for a function of the analysed repository — callers
+// that live in the control overlay package are left out: a control must never
+// influence the verdict (or the reported position) of a real function.
+func scpCallers(c *Ctx, fn *ssa.Function, keepSynthetic bool) []*callgraph.Edge {
+	var out []*callgraph.Edge
+	for _, e := range c.P.Callers(fn) {
+		if e == nil || e.Site == nil || e.Caller == nil || e.Caller.Func == nil {
+			continue
+		}
+		cf := e.Caller.Func
+		if cf.Synthetic != "" && !keepSynthetic {
+			continue
+		}
+		if !c.P.IsControl(fn) && c.P.IsControl(cf) {
+			continue
+		}
+		out = append(out, e)
+	}
+	sort.SliceStable(out, func(i, j int) bool {
+		a, b := c.P.Name(out[i].Caller.Func), c.P.Name(out[j].Caller.Func)
+		if a != b {
+			return a < b
+		}
+		return out[i].Site.Pos() < out[j].Site.Pos()
+	})
+	return out
 }
 
 func scpIsAncestor(anc, fn *ssa.Function) bool {
